@@ -221,6 +221,14 @@ def run_bytes(ns, res, tier, sample_idx, policies):
                         got = observe(ns, PieceRaw(pieces, log), encoding, ',', policy, header, comment, 1024)
                         res.evaluations += 1
                         res.count('byte_partition_runs')
+                        if k % 3 == 0:
+                            # what sys.stdin.buffer or a socket file is: a peekable BufferedReader over the raw stream that returns short reads
+                            got_b = observe(ns, io.BufferedReader(PieceRaw(pieces)), encoding, ',', policy, header, comment, 1024)
+                            res.evaluations += 1
+                            res.count('byte_partition_runs_buffered_reader')
+                            if got_b != whole:
+                                res.violation('byte-chunk-dependence-buffered', '%s bytes %r (%s) delivered as %r through a BufferedReader -> %r, whole -> %r' % (encoding, data, cfg, pieces, got_b, whole),
+                                              {'text': text, 'policy': policy, 'comment': comment, 'header': header, 'encoding': encoding, 'pieces': lens, 'chunk_size': 1024, 'mode': 'bytes-buffered'})
                         seen_logs.add(tuple(x[1] for x in log))
                         if got != whole:
                             res.violation('byte-chunk-dependence', '%s bytes %r (%s) delivered as %r -> %r, whole -> %r' % (encoding, data, cfg, pieces, got, whole),
@@ -333,7 +341,7 @@ def summarize(tier, seed, m):
     return {
         'rule': 'every text of length <= %d over {a, quote, comma, LF, CR, #, space} x all 2^(n-1) partitions into successive reads (chunk_size n+1) x policies {simple, quoted, quoted_rfc} x comment prefix {none, #} x header {off, on}; length %d with header off (quick tier: 4 of the 6 policy x comment configurations at that length); for each text also chunk_size 1..n on the undivided text; every byte partition of %d multi-byte UTF-8 / latin-1 / BOM samples through a RawIOBase; random longer texts with random partitions and chunk sizes (text and byte level); the same exhaustive differential up to 5 / 6 characters for 7 further dialects (semicolon, space + whitespace policy, space + quoted, monocolumn, multi-character delimiter with quoted_rfc and simple, tab) with single- and multi-character comment prefixes. Each whole read is also compared with the reference reader. distinct_nontrivial = (text, configuration) pairs whose text contains a line break or a quote.' % (FULL_LEN[tier], EXTRA_LEN[tier], len(byte_samples())),
         'exhaustive': True,
-        'required': ['partition_runs', 'byte_partition_runs', 'reference_comparisons', 'chunk_size_runs', 'dialect_partition_runs', 'dialect_reference_comparisons'],
+        'required': ['partition_runs', 'byte_partition_runs', 'byte_partition_runs_buffered_reader', 'reference_comparisons', 'chunk_size_runs', 'dialect_partition_runs', 'dialect_reference_comparisons'],
         'assumptions': ['all delivery sequences a stream can produce are covered by enumerating partitions under a large chunk_size (a read(k) request returns min(piece, k)) plus the chunk-size sweep',
                         'rv.model.refcsv.read_text states the line-ending / comment / multi-line / BOM rules'],
     }
